@@ -155,6 +155,7 @@ func (m *Manager) acquireSemaphore(ctx context.Context) error {
 		return m.sigs.term.Err()
 
 	case m.sem.Get() <- struct{}{}:
+		drpcdebug.Point("manager.acquire.got")
 		if err := m.waitForPreviousStream(ctx); err != nil {
 			m.sem.Recv()
 			return err
@@ -245,6 +246,7 @@ func (m *Manager) manageReader() {
 		m.log("READ", pkt.String)
 
 	again:
+		drpcdebug.Point("manager.reader.dispatch")
 		switch curr := m.sbuf.Get(); {
 		// if the packet is for the current stream, deliver it.
 		case curr != nil && pkt.ID.Stream == curr.ID():
@@ -303,6 +305,7 @@ func (m *Manager) newStream(ctx context.Context, sid uint64, kind, rpc string) (
 	stream := drpcstream.NewWithOptions(ctx, sid, m.wr, opts)
 	select {
 	case m.streams <- streamInfo{ctx: ctx, stream: stream}:
+		drpcdebug.Point("manager.newstream.beforeset")
 		m.sbuf.Set(stream)
 		m.log("STREAM", stream.String)
 		return stream, nil
@@ -333,6 +336,7 @@ func (m *Manager) manageStreams() {
 func (m *Manager) manageStream(ctx context.Context, stream *drpcstream.Stream) {
 	select {
 	case <-m.sigs.term.Signal():
+		drpcdebug.Point("manager.stream.term")
 		err := m.sigs.term.Err()
 		if errors.Is(err, io.EOF) {
 			err = context.Canceled
@@ -342,14 +346,17 @@ func (m *Manager) manageStream(ctx context.Context, stream *drpcstream.Stream) {
 		m.sem.Recv()
 
 	case <-m.sfin:
+		drpcdebug.Point("manager.stream.fin")
 		m.sem.Recv()
 
 	case <-ctx.Done():
+		drpcdebug.Point("manager.stream.ctx")
 		m.log("CANCEL", stream.String)
 
 		if m.opts.SoftCancel {
 			// allow a new stream to begin.
 			m.sem.Recv()
+			drpcdebug.Point("manager.stream.softreleased")
 
 			// attempt to send the soft cancel. if it fails or if the stream is
 			// busy sending something else, then we have to hard cancel.
